@@ -526,7 +526,7 @@ func init() {
 				}
 			}})
 		}
-		us = append(us, coldUnit("nasConvert", "lists"))
+		us = append(us, coldUnits(tier, "nasConvert", "lists")...)
 		return us
 	}
 	core.Register(p)
